@@ -7,8 +7,8 @@ def cross(ctx, by_case):
 
     groups = {}
     for k, a in by_case.items():
-        groups.setdefault((a["case"]["driver"], a["case"]["runs"]), []).append(a)
-    for (driver, runs), lst in groups.items():
+        groups.setdefault((a["case"]["driver"], a["case"]["runs"], a["case"].get("cache", True)), []).append(a)
+    for (driver, runs, _cache), lst in groups.items():
         outs = set()
         cgs = {}
         for a in lst:
